@@ -1,5 +1,6 @@
 import S3V.Gen.Bindings
 import S3V.Gen.Conv
+import S3V.Thm.HttpDe
 /-!
 # C02 — the typed input the backend receives equals what the client encoded (property theorems; table half)
 
@@ -24,6 +25,106 @@ theorem C02_wire_names_distinct : ∀ op : Op,
     ((implInputs op).filter (fun b => b.loc == .query || b.loc == .header)).map (fun b => (b.loc, b.wire))
       |>.Nodup := by
   intro op; cases op <;> decide +kernel
+
+/-! ## the binding helpers of `http/de.rs` (hand-written): decoding what a client encoded gives it back
+
+The generated `deserialize_http` of an operation is `decodeAll` over its binding list (statement order, `?` after
+each). `encode` is the Smithy REST binding of the members, independent of the decoder. No bound on the number of
+members, on list lengths or on value sizes; the scalar codec of each member type is a parameter with the
+hypothesis `dec (enc v) = some v` (C14 proves it for ranges, timestamps and copy sources). -/
+
+open S3V.HttpDe S3V.HttpBinding S3V.HttpDeThm in
+/-- every member bound to a header or to the query string arrives with exactly the value sent, members not sent
+    arrive absent (`opt none`, empty list), whatever other headers and query pairs surround them -/
+theorem C02_decode_encode {V : Type} (bs : List (EB V)) (ss : List (Slot V)) (extraH extraQ : List (Name × Bytes))
+    (hc : Conf bs ss) (hd : Distinct bs)
+    (hH : ∀ b ∈ bs, isHeaderKind b.bind.kind = true → getAll extraH b.bind.wire = [])
+    (hQ : ∀ b ∈ bs, isHeaderKind b.bind.kind = false → getAll extraQ b.bind.wire = []) :
+    decodeAll (encode extraH extraQ bs ss) (bs.map (·.bind)) = .ok ss :=
+  decodeAll_suffix bs ss extraH extraQ hc hd hH hQ _ (fun _ => rfl) ⟨_, rfl, fun _ => rfl⟩
+
+open S3V.HttpDe in
+/-- a single-valued header member sent twice is a client error, not a merged or first/last-wins input -/
+theorem C02_duplicate_header_rejected {V : Type} (dec : Bytes → Option V) (r : Req) (n : Name) (v₁ v₂ : Bytes)
+    (rest : List Bytes) (h : getAll r.headers n = v₁ :: v₂ :: rest) :
+    parseHeader dec r n = .error .duplicateHeader ∧ parseOptHeader dec r n = .error .duplicateHeader := by
+  simp [parseHeader, parseOptHeader, h]
+
+open S3V.HttpDe in
+/-- likewise for a query member -/
+theorem C02_duplicate_query_rejected {V : Type} (dec : Bytes → Option V) (r : Req) (qs : List (Name × Bytes))
+    (n : Name) (v₁ v₂ : Bytes) (rest : List Bytes) (hq : r.query = some qs) (h : getAll qs n = v₁ :: v₂ :: rest) :
+    parseQuery dec r n = .error .duplicateQuery ∧ parseOptQuery dec r n = .error .duplicateQuery := by
+  simp [parseQuery, parseOptQuery, hq, h]
+
+open S3V.HttpDe in
+/-- a missing required member is a client error, never a defaulted value -/
+theorem C02_missing_required_rejected {V : Type} (dec : Bytes → Option V) (r : Req) (n : Name) :
+    (getAll r.headers n = [] → parseHeader dec r n = .error .missingHeader ∧
+        parseListHeader dec true r n = .error .missingHeader) ∧
+      ((r.query = none ∨ ∃ qs, r.query = some qs ∧ getAll qs n = []) → parseQuery dec r n = .error .missingQuery) := by
+  refine ⟨fun h => by simp [parseHeader, parseListHeader, h], ?_⟩
+  rintro (h | ⟨qs, hq, h⟩)
+  · simp [parseQuery, h]
+  · simp [parseQuery, hq, h]
+
+open S3V.HttpDe in
+/-- a value that is not of the member's type is a client error, never a defaulted or truncated value -/
+theorem C02_ill_typed_rejected {V : Type} (dec : Bytes → Option V) (r : Req) (n : Name) (v : Bytes) (hv : dec v = none) :
+    (getAll r.headers n = [v] → parseHeader dec r n = .error .invalidHeader ∧
+        parseOptHeader dec r n = .error .invalidHeader ∧ ∀ req, parseListHeader dec req r n = .error .invalidHeader) ∧
+      (∀ qs, r.query = some qs → getAll qs n = [v] →
+        parseQuery dec r n = .error .invalidQuery ∧ parseOptQuery dec r n = .error .invalidQuery) := by
+  refine ⟨fun h => ?_, fun qs hq h => by simp [parseQuery, parseOptQuery, hq, h, hv]⟩
+  simp [parseHeader, parseOptHeader, parseListHeader, h, hv]
+
+open S3V.HttpDe in
+/-- whatever a statement decodes was present under the member's own wire name: a value sent for one member
+    cannot arrive in another -/
+theorem C02_value_comes_from_own_name {V : Type} (dec : Bytes → Option V) (r : Req) (n : Name) (a : V) :
+    (parseOptHeader dec r n = .ok (some a) → ∃ v, getAll r.headers n = [v] ∧ dec v = some a) ∧
+      (parseOptQuery dec r n = .ok (some a) → ∃ qs v, r.query = some qs ∧ getAll qs n = [v] ∧ dec v = some a) := by
+  constructor
+  · intro h
+    simp only [parseOptHeader] at h
+    split at h
+    · cases h
+    · rename_i v _
+      split at h
+      · rename_i a' ha'
+        injection h with h; injection h with h; subst h
+        exact ⟨v, by assumption, ha'⟩
+      · cases h
+    · cases h
+  · intro h
+    simp only [parseOptQuery] at h
+    split at h
+    · cases h
+    · rename_i qs hq
+      split at h
+      · cases h
+      · rename_i v _
+        split at h
+        · rename_i a' ha'
+          injection h with h; injection h with h; subst h
+          exact ⟨qs, v, hq, by assumption, ha'⟩
+        · cases h
+      · cases h
+
+/-! non-vacuity of `C02_decode_encode`: two header members and one query member with identity codecs -/
+open S3V.HttpDe S3V.HttpBinding in
+example : decodeAll
+    (encode [([104], [120])] [([120, 45, 105, 100], [71])]
+      [⟨⟨.optHeader, [97], some⟩, id⟩, ⟨⟨.reqQuery, [98], some⟩, id⟩, ⟨⟨.listHeader false, [99], some⟩, id⟩]
+      [.opt (some [1, 2]), .one [3], .many [[4], [5]]])
+    ([⟨⟨.optHeader, [97], some⟩, id⟩, ⟨⟨.reqQuery, [98], some⟩, id⟩,
+      (⟨⟨.listHeader false, [99], some⟩, id⟩ : EB Bytes)].map (·.bind))
+    = .ok [.opt (some [1, 2]), .one [3], .many [[4], [5]]] := by
+  apply C02_decode_encode
+  · simp [Conf, Conforms, slotValues]
+  · simp [Distinct, isHeaderKind]
+  · simp [isHeaderKind, getAll]
+  · simp [isHeaderKind, getAll]
 
 /-! ## the SDK-proxy configuration (client → AWS-SDK proxy backend → second adapter)
 
